@@ -19,7 +19,11 @@ BOUNDS = (
     "masked pixels inside a source is always passed where accepted; argument representations "
     "{ndarray, MaskedArray (own mask, fill_value 123), Quantity (Jy; thresholds/backgrounds get the "
     "unit), view of a larger array (data, error, mask, background all views; parents are snapshotted)} "
-    "[thorough: + float32, int32 data and NDData where accepted]. Entry points (48): "
+    "[thorough: + condition nan+neg for every representation, Fortran-ordered arrays under all 4 "
+    "conditions, float32 and int32 ndarray data under clean/neg, and a second noise realisation of the "
+    "whole quick product]. 33 entry groups: NDData "
+    "containers (data+mask+StdDevUncertainty+unit) into aperture_photometry / ApertureStats / "
+    "Background2D / PSFPhotometry / make_residual_image, "
     "aperture_photometry (3 methods, list of apertures), PixelAperture.do_photometry/area_overlap/"
     "to_mask + ApertureMask.cutout/multiply/get_values/to_image, ApertureStats (+ every public "
     "property, to_table; sigma_clip and local_bkg variants), Background2D (+ every map; Zoom and IDW), "
@@ -109,7 +113,7 @@ def snap(obj, depth=0):
     if mod.startswith('photutils.aperture'):
         if hasattr(obj, '_params'):
             return ('aper', type(obj).__name__,
-                    tuple((p, snap(getattr(obj, p), depth + 1)) for p in obj._params))
+                    {p: snap(getattr(obj, p), depth + 1) for p in obj._params})
         if type(obj).__name__ == 'ApertureMask':
             return ('apermask', snap(obj.data, depth + 1), repr(obj.bbox))
     if type(obj).__name__ == 'SegmentationImage':
@@ -117,8 +121,8 @@ def snap(obj, depth=0):
     if type(obj).__name__ == 'EllipseGeometry':
         # centerer_threshold is deliberately not part of the snapshot: Ellipse.__init__/set_threshold
         # store it on the geometry by documented design (noted in run(), like F25)
-        return ('geom', tuple((k, snap(getattr(obj, k, '<unset>'), depth + 1))
-                              for k in ('x0', 'y0', 'sma', 'eps', 'pa', 'astep', 'linear_growth', 'fix')))
+        return ('geom', {k: snap(getattr(obj, k, '<unset>'), depth + 1)
+                         for k in ('x0', 'y0', 'sma', 'eps', 'pa', 'astep', 'linear_growth', 'fix')})
     if mod.startswith('astropy.convolution'):
         return ('kernel', type(obj).__name__, _nd(obj.array))
     if type(obj).__name__ == 'SigmaClip':
@@ -177,7 +181,8 @@ _LBL = {'ma': ['', 'data', 'mask', 'fill_value', 'hardmask', 'dtype'],
         'tbl': ['', 'type', 'colnames', 'columns', 'meta', 'masked'],
         'ndd': ['', 'type', 'data', 'mask', 'uncertainty', 'unit', 'meta'],
         'model': ['', 'type', 'param_names', 'parameters', 'fixed', 'bounds', 'tied', 'name', 'attrs'],
-        'segm': ['', 'data'], 'kernel': ['', 'type', 'array']}
+        'segm': ['', 'data'], 'kernel': ['', 'type', 'array'], 'aper': ['', 'type', 'attr'],
+        'geom': ['', 'field'], 'v': ['', 'type', 'value']}
 
 
 def _lbl(t, i):
@@ -210,11 +215,11 @@ class H:
             img = img + a * np.exp(-((xx - x) ** 2 + (yy - y) ** 2) / (2 * s * s))
         img = img + rng.normal(0, 0.4, SHAPE)
         err = 0.4 + 0.05 * np.sqrt(np.abs(img))
-        if cond == 'neg':
+        if cond in ('neg', 'nanneg'):
             img = img - 3.0
             img[10, 8] = -25.0          # strongly negative pixel inside a source cut-out
             img[22, 24] = -4.0
-        if cond == 'nan':
+        if cond in ('nan', 'nanneg'):
             img[10, 10] = np.nan        # inside source 1
             img[21, 23] = np.inf        # inside source 3
             img[3, 28] = -np.inf
@@ -243,6 +248,8 @@ class H:
             big[2:-3, 4:-2] = arr
             self.held[name + '.parent'] = big
             arr = big[2:-3, 4:-2]
+        elif self.rep == 'fortran':
+            arr = np.asfortranarray(arr)
         elif self.rep == 'ma' and name == 'data':
             m = np.zeros(arr.shape, bool)
             m[12, 14] = m[2, 2] = True
@@ -764,6 +771,36 @@ def ep_utils(h):
     yield ('resize_psf', lambda: resize_psf(p1, 0.1, 0.05))
 
 
+def ep_nddata(h):
+    """NDData containers (data / mask / StdDevUncertainty / unit) where the API accepts them."""
+    from astropy.nddata import NDData, StdDevUncertainty
+
+    from photutils.aperture import ApertureStats, CircularAperture, aperture_photometry
+    from photutils.background import Background2D
+    from photutils.psf import PSFPhotometry
+    d, e = h.data, h.error
+    unit = h.unit
+    if unit is not None:
+        d, e = d.value, e.value
+    if isinstance(d, np.ma.MaskedArray):
+        d = d.data
+    nd = h.add('nddata', NDData(d, uncertainty=StdDevUncertainty(e), mask=h.mask, unit=unit,
+                                meta={'origin': 'caller'}))
+    ap = h.add('aperture', CircularAperture([(9.3, 10.2), (23.6, 21.3)], r=4.0))
+    yield ('aperture_photometry', lambda: aperture_photometry(nd, ap))
+    st = yield ('ApertureStats', lambda: ApertureStats(nd, ap))
+    if st is not None:
+        yield ('ApertureStats.props', lambda: (st.sum, st.sum_err, st.centroid, st.fwhm, st.median))
+    b = yield ('Background2D', lambda: Background2D(nd, (8, 8), exclude_percentile=50.0))
+    if b is not None:
+        yield ('Background2D.maps', lambda: (b.background, b.background_rms))
+    model = _psf_setup(h)
+    phot = PSFPhotometry(model, (5, 5), aperture_radius=4.0)
+    res = yield ('PSFPhotometry', lambda: phot(nd, init_params=h.init_params))
+    if res is not None:
+        yield ('PSFPhotometry.make_residual_image', lambda: phot.make_residual_image(nd, psf_shape=(9, 9)))
+
+
 ENTRIES = {
     'aperture_photometry': ep_aperture_photometry,
     'PixelAperture': ep_aperture_methods,
@@ -797,6 +834,7 @@ ENTRIES = {
     'image_models': ep_image_models,
     'extract_stars': ep_extract_stars,
     'utils': ep_utils,
+    'NDData': ep_nddata,
 }
 # the defect F22 (geometry flags written by fit_image) has ONE key shared with C09/C20
 SPECIAL_KEYS = {('Ellipse', 'geometry'): 'ellipse/fit_image-config-leak'}
@@ -875,6 +913,10 @@ def _combos(ctx):
             for cond in CONDS:
                 yield entry, rep, cond, None
         if ctx.thorough:
+            for rep in REPS:
+                yield entry, rep, 'nanneg', None
+            for cond in CONDS + ['nanneg']:
+                yield entry, 'fortran', cond, None
             for dt in ('float32', 'int32'):
                 for cond in ('clean', 'neg'):
                     yield entry, 'nd', cond, dt
@@ -884,11 +926,14 @@ def run(ctx):
     dseed = int(ctx.rng.integers(1, 2 ** 30))
     raised = {}
     first = True
-    for entry, rep, cond, dt in _combos(ctx):
+    combos = [(c, dseed) for c in _combos(ctx)]
+    if ctx.thorough:
+        combos += [((e, r, c, None), dseed + 1) for e in ENTRIES for r in REPS for c in CONDS]
+    for (entry, rep, cond, dt), dseed in combos:
         tag = rep if dt is None else dt
 
-        def on_step(label, exc, entry=entry, tag=tag, cond=cond):
-            ctx.case((entry, label, tag, cond), nontrivial=exc is None, contract='caller-held objects unchanged',
+        def on_step(label, exc, entry=entry, tag=tag, cond=cond, dseed=dseed):
+            ctx.case((entry, label, tag, cond, dseed), nontrivial=exc is None, contract='caller-held objects unchanged',
                      sample=None)
             if exc is not None:
                 raised.setdefault(entry, {}).setdefault(f'{type(exc).__name__}', 0)
